@@ -133,6 +133,10 @@ func (s *IDGenerator) String() string {
 }
 
 func (s *IDGenerator) Clear(stream int) (inuse bool) {
+	if stream < 0 || stream >= s.NumStreams {
+		// never handed out
+		return false
+	}
 	offset := bucketOffset(stream)
 	bucket := atomic.LoadUint64(&s.streams[offset])
 
